@@ -20,7 +20,7 @@ abbrev Path := List String
 abbrev Bytes := List UInt8
 
 inductive Errno where
-  | EBADF | ENOENT | ENOTDIR | EISDIR | EEXIST | EMFILE | EINVAL
+  | EBADF | ENOENT | ENOTDIR | EISDIR | EEXIST | EMFILE | EINVAL | EAGAIN | EPIPE | ESPIPE
   /-- not an errno: the harness guard refused a path that lexically leaves the scratch root -/
   | ESCAPE
   deriving DecidableEq, Repr, Inhabited
@@ -28,6 +28,7 @@ inductive Errno where
 def Errno.name : Errno → String
   | .EBADF => "EBADF" | .ENOENT => "ENOENT" | .ENOTDIR => "ENOTDIR" | .EISDIR => "EISDIR"
   | .EEXIST => "EEXIST" | .EMFILE => "EMFILE" | .EINVAL => "EINVAL" | .ESCAPE => "ESCAPE"
+  | .EAGAIN => "EAGAIN" | .EPIPE => "EPIPE" | .ESPIPE => "ESPIPE"
 
 /-! ## file tree -/
 
@@ -107,6 +108,11 @@ structure Ofd where
   wr : Bool
   app : Bool
   off : Nat
+  /-- one end of a pipe (see `Kernel/Pipe.lean`): `path` then names the pipe's buffer, a bookkeeping entry
+      of the tree that no path operation can reach -/
+  pipe : Bool := false
+  /-- O_NONBLOCK -/
+  nonblock : Bool := false
   deriving DecidableEq, Repr, Inhabited
 
 structure FdEntry where
